@@ -422,6 +422,7 @@ func (eng *Engine) verifyFunc(fn *ssa.Function, con *Contract, mode string) *VC 
 		fr.regs[p] = c
 		fr.params = append(fr.params, c)
 		fr.assumeTypeFacts("true", p.Type(), c, &fr.entry)
+		fr.notePointer("true", c, p.Type())
 	}
 	for _, fv := range fn.FreeVars {
 		c := fr.freshVal("fv_"+fv.Name(), fv.Type())
